@@ -135,8 +135,22 @@ def check(prop, mod, a, seed, t0):
             miss += [ln for ln in lines if ln not in allreached]
         if miss:
             unreached[t.name] = miss
+        t._miss = set(miss)
         eng.target_results[t.name]["path_ends"] = d["ends"]
         eng.target_results[t.name]["infeasible_path_ends"] = d["infeasible_ends"]
+    # targets that split one function by argument type (cover_group) pool their reached statements: a statement is
+    # unreached only if no target of the group reaches it
+    groups = {}
+    for t in eng.targets:
+        g = getattr(t, "cover_group", None)
+        if g and hasattr(t, "_miss"):
+            groups.setdefault(g, []).append(t)
+    for g, ts in groups.items():
+        common = set.intersection(*[t._miss for t in ts])
+        for t in ts:
+            unreached.pop(t.name, None)
+        if common:
+            unreached[g] = sorted(common)
     if a.explain:
         from pyvc import debug
         seen = set()
@@ -207,7 +221,10 @@ def check(prop, mod, a, seed, t0):
     nproved = sum(1 for ob in obs if ob.status == "proved")
     evidence = make_evidence(prop, mod, a, seed, eng, obs, nproved, sc, bounded, unsupported, known_hits, violations,
                              gen_s, solve_s, time.time() - t0, unreached)
-    with open(os.path.join(ROOT, "evidence", f"{prop}.json"), "w") as f:
+    # runs against a scratch copy (seeded changes, PYVC_REPO) must not overwrite the evidence of the real tree
+    evdir = os.path.join(ROOT, "evidence") if os.path.realpath(extract.REPO) == "/repo" else os.path.join(OUT, "evidence_scratch")
+    os.makedirs(evdir, exist_ok=True)
+    with open(os.path.join(evdir, f"{prop}.json"), "w") as f:
         json.dump(evidence, f, indent=1)
     print(f"{prop}: targets={len(eng.targets)} obligations={len(obs)} proved={nproved} "
           f"unsupported={len(unsupported)} bounded={[(b['name'], b.get('status')) for b in bounded]} "
